@@ -1,1 +1,2 @@
+// needs:race (C19: free-running pass next to the audit.log watcher's use of the shared metrics provider)
 package psshd
